@@ -7,6 +7,7 @@ is added together with the defaults inside it).
 Property theorems only; proofs of the lemmas are in `Lemmas/Implicit.lean`.
 -/
 import AnnetModel.Lemmas.Implicit
+import AnnetModel.Lemmas.ImplicitDiff
 
 /-! OBLIGATIONS
 Annet.Implicit.C17_keeps_explicit
@@ -16,6 +17,7 @@ Annet.Implicit.C17_default_iff
 Annet.Implicit.C17_ignore_adds_nothing_new
 Annet.Implicit.C17_idempotent
 Annet.Implicit.C17_same_default_both_sides
+Annet.Implicit.C17_default_never_added_or_removed
 -/
 
 namespace Annet.Implicit
@@ -70,6 +72,21 @@ theorem C17_same_default_both_sides (rules : List IRule) (t u mt mu : Cfg)
   constructor
   · rw [C17_default_iff rules t mt ht hd r hr hi, hkt]; simp
   · rw [C17_default_iff rules u mu hu hd r hr hi, hku]; simp
+
+/-- THE PATCH CLAUSE, through the diff model: a default that is explicit in neither configuration, where neither has a line
+of its kind, is present in both completions — hence `make_diff` of the completed configurations, with whatever patching
+rulebook, reports it neither ADDED nor REMOVED at the top level, so it yields no command (C02_patch_provenance: commands
+stem from changed entries).  Combines `C17_same_default_both_sides` with `C03_make_diff_ops_exact`. -/
+theorem C17_default_never_added_or_removed (rules : List IRule) (t u mt mu : Cfg)
+    (ht : complete rules t = some mt) (hu : complete rules u = some mu) (hd : RowsDistinct rules)
+    (r : IRule) (hr : r ∈ rules) (hi : r.ignore = false)
+    (hkt : hasLineOfKind r t = false) (hku : hasLineOfKind r u = false)
+    (prules : Rules.PRules) (ao an : Diff.ACfg) (d : List Diff.DItem)
+    (ha : Diff.annotate prules mt = .ok ao) (hn : Diff.annotate prules mu = .ok an)
+    (hdo : Diff.Spec.NoDupRows ao) (hdn : Diff.Spec.NoDupRows an)
+    (h : Diff.makeDiff prules mt mu = .ok d) :
+    ∀ i ∈ d, i.row = r.row → i.op ≠ .added ∧ i.op ≠ .removed :=
+  Lemmas.default_never_added_or_removed rules t u mt mu ht hu hd r hr hi hkt hku prules ao an d ha hn hdo hdn h
 
 /-- Non-vacuity (Huawei NE fragment): `aaa` comes with its default child; an explicit different value wins. -/
 example :
